@@ -66,9 +66,10 @@ CHECKS.update({
 
 CHECKS.update({
     "C15": dict(
-        technique="TLA+ capacity algebra + allocation ledger (FimCapacity): laws checked by TLC over a vector family; every "
-                  "operation on every pair and ledger histories replayed on the real Capacities/FreeCapacity at three scales, "
-                  "judged by Trace_FimCapacity",
+        technique="TLA+ capacity algebra + allocation ledger (FimCapacityAlgebra, FimCapacity): laws checked by TLC over a vector "
+                  "family and by Apalache (SMT) for all integer vectors; every operation on every pair and ledger histories "
+                  "(incl. printing as an observation) replayed on the real Capacities/FreeCapacity at three scales, judged by "
+                  "Trace_FimCapacity",
         text="TLC checks the algebraic laws ((a+b)-b=a, commutativity, associativity, fits <=> no negative field of the "
              "difference, equality laws, free+allocated=total) on the model and generates all operations on all pairs of a "
              "representative vector family (thorough: + the cube {0,1,2}^3 on core/ram/disk) and ledger histories; the real "
